@@ -9,6 +9,8 @@ import (
 	"fmt"
 	"math/rand"
 	"sort"
+	"sync"
+	"time"
 
 	"github.com/relab/hotstuff"
 	"github.com/relab/hotstuff/core"
@@ -31,6 +33,68 @@ func (d *denseIDs) id(b []byte) int {
 	}
 	d.m[k] = len(d.m) + 1
 	return d.m[k]
+}
+
+// gateBase is the signature scheme under the cache, with a gate: while armed, every verification announces itself and then waits
+// for release, so that the driver decides which requests overlap.
+type gateBase struct {
+	crypto.Base
+	mu      sync.Mutex
+	armed   bool
+	entered chan struct{}
+	release chan struct{}
+}
+
+func (g *gateBase) wait() {
+	g.mu.Lock()
+	armed, entered, release := g.armed, g.entered, g.release
+	g.mu.Unlock()
+	if armed {
+		entered <- struct{}{}
+		<-release
+	}
+}
+
+func (g *gateBase) Verify(sig hotstuff.QuorumSignature, message []byte) error {
+	g.wait()
+	return g.Base.Verify(sig, message)
+}
+
+func (g *gateBase) BatchVerify(sig hotstuff.QuorumSignature, batch map[hotstuff.ID][]byte) error {
+	g.wait()
+	return g.Base.BatchVerify(sig, batch)
+}
+
+// overlap runs k calls on the cached authority so that each one starts while all earlier ones are still inside the scheme's
+// verification (or have returned).  It reports each call's verdict and whether it reached the scheme.
+func (g *gateBase) overlap(k int, call func() error) (verdicts []bool, reached []bool) {
+	g.mu.Lock()
+	g.armed, g.entered, g.release = true, make(chan struct{}, k), make(chan struct{})
+	g.mu.Unlock()
+	results := make([]chan bool, k)
+	reached = make([]bool, k)
+	for i := 0; i < k; i++ {
+		results[i] = make(chan bool, 1)
+		go func(c chan bool) {
+			ok, _, _ := verdict(call)
+			c <- ok
+		}(results[i])
+		select {
+		case <-g.entered:
+			reached[i] = true
+		case ok := <-results[i]:
+			results[i] <- ok
+		case <-time.After(300 * time.Millisecond): // a cache that makes the second caller wait for the first: let them go
+		}
+	}
+	g.mu.Lock()
+	g.armed = false
+	g.mu.Unlock()
+	close(g.release)
+	for i := 0; i < k; i++ {
+		verdicts = append(verdicts, <-results[i])
+	}
+	return
 }
 
 func c11(args []string) error {
@@ -66,7 +130,9 @@ func c11(args []string) error {
 			if err != nil {
 				return err
 			}
-			cached, err := hx.NewSecCluster(hx.SecOpts{N: n, Scheme: scheme, Keys: keys, Opts: []core.RuntimeOption{core.WithCache(uint(capacity))}})
+			gates := map[hotstuff.ID]*gateBase{}
+			cached, err := hx.NewSecCluster(hx.SecOpts{N: n, Scheme: scheme, Keys: keys, Opts: []core.RuntimeOption{core.WithCache(uint(capacity))},
+				WrapBase: func(id hotstuff.ID, b crypto.Base) crypto.Base { gates[id] = &gateBase{Base: b}; return gates[id] }})
 			if err != nil {
 				return err
 			}
@@ -160,7 +226,37 @@ func c11(args []string) error {
 				okC, _, _ := verdict(func() error { return ac.Verify(sig, mb) })
 				o.emit(obj{"op": "verify", "n": n, "scheme": scheme, "sig": a, "msg": m, "key": key, "vc": okC, "vu": okU, "lru": lru(key)})
 			}
+			gate := gates[hotstuff.ID(me)]
+			// overlapping requests for one signature and message (votes are verified in their own goroutines): every caller gets the
+			// uncached verdict
+			overlapVerify := func(a hx.AbsSig, m hx.Msg) {
+				sig := w.Sig(a)
+				mb := w.Bytes(m)
+				key := obj{"m": mids.id(mb), "c": hx.IDs(sig.Participants()), "b": bids.id(sig.ToBytes())}
+				vcs, reached := gate.overlap(2+rng.Intn(3), func() error { return ac.Verify(sig, mb) })
+				okU, _, _ := verdict(func() error { return au.Verify(sig, mb) })
+				o.emit(obj{"op": "overlap", "of": "verify", "n": n, "scheme": scheme, "sig": a, "msg": m, "key": key, "vcs": vcs, "reached": reached, "vu": okU, "lru": lru(key)})
+			}
+			// the first use of every replica's key and of a fresh signature object is by overlapping callers
+			for id := 1; id <= n; id++ {
+				m := msgs[rng.Intn(len(msgs))]
+				a := w.GoodSig([]int{id}, m)
+				pool = append(pool, pooled{a, m})
+				overlapVerify(a, m)
+			}
 			for step := 0; step < *length; step++ {
+				if rng.Intn(8) == 0 && len(pool) > 0 {
+					p := pool[rng.Intn(len(pool))]
+					switch rng.Intn(3) {
+					case 0:
+						overlapVerify(p.sig, p.msg)
+					case 1:
+						overlapVerify(p.sig, msgs[rng.Intn(len(msgs))])
+					default:
+						overlapVerify(mutate(p.sig), p.msg)
+					}
+					continue
+				}
 				switch r := rng.Intn(10); {
 				case r < 3 || len(pool) == 0: // a fresh (mostly valid) signature
 					m := msgs[rng.Intn(len(msgs))]
@@ -215,6 +311,11 @@ func c11(args []string) error {
 						sig := w.Sig(a)
 						key := obj{"m": mids.id(h.Sum(nil)), "c": hx.IDs(sig.Participants()), "b": bids.id(sig.ToBytes())}
 						okU, _, _ := verdict(func() error { return au.BatchVerify(sig, batch) })
+						if rng.Intn(3) == 0 { // the batch offered by overlapping callers
+							vcs, reached := gate.overlap(2, func() error { return ac.BatchVerify(sig, batch) })
+							o.emit(obj{"op": "overlap", "of": "batch", "n": n, "scheme": scheme, "sig": a, "batch": babs, "key": key, "vcs": vcs, "reached": reached, "vu": okU, "lru": lru(key)})
+							continue
+						}
 						okC, _, _ := verdict(func() error { return ac.BatchVerify(sig, batch) })
 						o.emit(obj{"op": "batch", "n": n, "scheme": scheme, "sig": a, "batch": babs, "key": key, "vc": okC, "vu": okU, "lru": lru(key)})
 						if rng.Intn(3) == 0 {
